@@ -198,9 +198,14 @@ def tlc(module, cfg, workers=None, env=None, timeout=1800, dfs=False, xmx="8g", 
         r.wall = time.time() - t0
     shutil.rmtree(meta, ignore_errors=True)
     shutil.rmtree(tmp, ignore_errors=True)
+    text_lines = []
     for ln in r.out.splitlines():
         if ln.startswith("<<"):
             r.printed.append(ln)
+        elif len(ln) < 2000:
+            text_lines.append(ln)
+    full_out = r.out
+    r.out = "\n".join(text_lines)      # TLC's own messages only (printed values can be huge)
     m = re.search(r"(\d[\d,]*) states generated, (\d[\d,]*) distinct states found", r.out)
     if m:
         r.generated = int(m.group(1).replace(",", ""))
